@@ -27,3 +27,4 @@ INVARIANT StepsCopyOK
 INVARIANT WalkOK
 INVARIANT Drift_Measure
 INVARIANT Drift_FromStab
+INVARIANT Drift_Refusal
